@@ -177,7 +177,7 @@ func c13Split(v string) (label, doc string) {
 }
 
 func runC13(c *Ctx) {
-	nFiles := c.N(2500, 40000)
+	nFiles := c.N(2500, 150000)
 	root := NewRng(c.Seed).Fork(13)
 	parallel(nFiles/5+1, 14, func(bi int) {
 		files := map[string]string{}
